@@ -1304,7 +1304,9 @@ def decodeAddr (ty : ATy) (peer : Addr) (klen : Nat) : Option String :=
       if klen = 16 then some (Addr.showAddr (Addr.initV4 (st.take 16))) else none
     else if klen = 28 ∧ fam = Addr.AF_INET6 then some (Addr.showAddr (Addr.initV6 st)) else none
   | .unix =>
-    if klen < 2 ∨ fam ≠ Addr.AF_UNIX then none else some (Addr.showAddr (Addr.initUnix st klen))
+    -- no address written (recvmsg from an unbound sender): unnamed, nothing is read (fix 2945ba2)
+    if klen < 2 then some (Addr.showAddr (Addr.initUnix st klen))
+    else if fam ≠ Addr.AF_UNIX then none else some (Addr.showAddr (Addr.initUnix st klen))
 
 def parseSockOpt (s : String) : Option SockOpt :=
   [("error", SockOpt.error), ("keepalive", .keepAlive), ("linger", .linger), ("reuseaddr", .reuseAddress),
